@@ -2,9 +2,50 @@
    Model: Maint.v over Policy.v / Wheel.v; the implementation is replayed task by task on the
    extracted model and every deque, counter, wheel bucket and node state is compared after every
    operation (engine "maint"), in addition to the implementation-only view oracles.
-   Theorems below: the repaired out-of-order handling of policy.update and the counters' behaviour;
-   the all-event-lists invariant is C05_inv in theories/PolicyInv.v when present (DESIGN 5). *)
-From Otter Require Import Base Sketch Policy Wheel Maint PolicyFacts.
+
+   Proved here (theories/PolicyInv.v), for EVERY event list over the system
+       index actions (create / replace / remove a node, creating its add / update / delete task)
+     | a task in flight reaches the write buffer — in ANY order (EPush k) —
+     | reads | maintenance runs at any clock values | SetMaximum
+   and for the repaired policy.update:
+     C05_invariant_all_orders  the bookkeeping invariant holds in every reachable state: the deques are
+         duplicate-free and disjoint, each linked node carries its deque's tag and is not dead, an
+         alive node whose task was consumed is linked, and the three wrapping counters equal (mod 2^64)
+         sums over the node store with a coefficient [task consumed] - [dead] per node;
+     C05_quiescent  whenever no task is pending (in flight or in the write buffer): the deques hold
+         exactly the nodes that are alive (the entries present), each once — so Hottest/Coldest
+         enumerate exactly the entries present, nothing removed is tracked and nothing present is
+         unknown — and weightedSize, windowWeightedSize, mainProtectedWeightedSize equal (mod 2^64)
+         the sums of the weights linked in all deques / the window / the protected deque.
+   Node identities are fresh and replace/remove act on the current (alive) node: [run_ok]. *)
+From Otter Require Import Base Sketch Policy Wheel Maint PolicyFacts PolicyInv.
+
+Theorem C05_invariant_all_orders : forall hashf evs expire weighted,
+  run_ok hashf (sys0 expire weighted) evs ->
+  SI (fold_left (sys_step hashf) evs (sys0 expire weighted)).
+Proof. intros hashf evs expire weighted H. exact (SI_run hashf evs _ (SI_sys0 expire weighted) H). Qed.
+Print Assumptions C05_invariant_all_orders.
+
+Theorem C05_quiescent : forall hashf evs expire weighted,
+  run_ok hashf (sys0 expire weighted) evs ->
+  let s := fold_left (sys_step hashf) evs (sys0 expire weighted) in
+  pend s = [] ->
+  let p := pol (sm s) in
+  NoDup (qwin p ++ qprob p ++ qprot p) /\
+  (forall id, linked p id <-> alive_in p id) /\
+  wsize p = wrapu (sum_weights p (qwin p ++ qprob p ++ qprot p)) /\
+  wwsize p = wrapu (sum_weights p (qwin p)) /\
+  pwsize p = wrapu (sum_weights p (qprot p)).
+Proof. exact policy_quiescent. Qed.
+Print Assumptions C05_quiescent.
+
+(* one maintenance run consumes the whole write buffer and keeps the invariant, whatever it holds *)
+Theorem C05_maintenance_consumes_buffer : forall hashf cur rnd now m fl,
+  MI m (fl ++ wbuf m) ->
+  let m' := fst (fst (fst (m_maintenance hashf cur rnd now m))) in
+  MI m' fl /\ wbuf m' = [].
+Proof. exact MI_maintenance. Qed.
+Print Assumptions C05_maintenance_consumes_buffer.
 
 (* the repaired update: whenever the new node is no longer alive or the old one is not linked
    (its add still pending, or already evicted), update is delete(old) followed by add(new) *)
@@ -23,6 +64,23 @@ Print Assumptions C05_update_out_of_order.
 Theorem C05_weights_immutable : forall p id x, pweight (node_of (pol_evict p id) x) = pweight (node_of p x).
 Proof. exact pol_evict_weight. Qed.
 Print Assumptions C05_weights_immutable.
+
+(* non-vacuity of the hypotheses: an event list in which the update task overtakes the add task of
+   the node it replaces (the order that broke the original code) is legal, ends quiescent, and the
+   policy then holds exactly the surviving node *)
+Example C05_hypotheses_satisfiable :
+  let h := fun _ k : Z => k in
+  let evs := [ESetMax 10 1 7; ECreate 101 1 1; EReplace 102 1 1 101; EPush 1; EPush 0; ERead 102;
+              EMaint (fun _ => 0) 1 0] in
+  run_ok h (sys0 false false) evs /\
+  let s := fold_left (sys_step h) evs (sys0 false false) in
+  pend s = [] /\ qwin (pol (sm s)) ++ qprob (pol (sm s)) ++ qprot (pol (sm s)) = [102] /\ wsize (pol (sm s)) = 1.
+Proof.
+  cbv zeta. split.
+  - cbn [run_ok]. repeat split; try exact I; try (vm_compute; reflexivity).
+    vm_compute. eexists. split; reflexivity.
+  - vm_compute. repeat split.
+Qed.
 
 (* the deterministic witness of the original defect (Set(1,a); Set(1,b) before the first drain),
    replayed on the repaired model: the second node ends up linked, counted once, and the first dead *)
